@@ -334,6 +334,7 @@ func (a *Agent) initComponents() error {
 	// Initialize flooder (needs peer manager for sending)
 	floodCfg := flood.DefaultFloodConfig()
 	floodCfg.LocalDisplayName = a.cfg.Agent.DisplayName
+	floodCfg.MaxHops = a.cfg.Routing.MaxHops
 	floodCfg.Logger = a.logger
 	floodCfg.SealedBox = a.sealedBox // Pass sealed box for encryption
 
